@@ -18,14 +18,18 @@ META = {
     "bounds": {"quick": "terminal-value loss: ARBITRARY marginal (n=2 coefficients, d=2), symbolic datum and noise level, observed "
                         "coefficient 0 and 1, three factorisations; time-series loss: ARBITRARY backward Markov sequence with 2 "
                         "output times (n=2, d=1), symbolic data and a DIFFERENT symbolic noise level per time, sum and average, "
-                        "observed coefficient 0 and 1, three factorisations",
-               "thorough": "3 output times; d=2 for the time-series loss"},
+                        "observed coefficient 0 and 1, three factorisations; INDUCTIVE STEP of the backward recursion for longer "
+                        "series: the real scan body of evaluate_lml (reached by substituting backend.flow.scan while tracing) "
+                        "applied once to an arbitrary carry (arbitrary filtered marginal, arbitrary accumulated value, 2 or 3 "
+                        "data points seen), sum and running mean",
+               "thorough": "as quick plus d=2 for the time-series loss"},
     "assumptions": ["A1 reals", "A2/A3 contracts", "log is uninterpreted; only sum_i w log|a_i| = (w/2) log prod a_i^2 is used: the "
                     "obligation splits into (i) the log-free part and (ii) equality of the products of the log arguments per "
                     "weight", "the 1x1 least-squares solve inside the time-series loss is division by a non-zero innovation "
                     "standard deviation (noise-free, exactly singular observations are outside)",
                     "log(2*pi) is the float64 constant read as a rational (A7)"],
-    "outside": ["more than 3 output times", "singular (noise-free and exact-initial-condition) observation covariances"],
+    "outside": ["end-to-end runs with 3 or more output times (degree-19 obligation, not decided within an hour; covered by "
+                "the inductive step plus the 2-time base case)", "singular (noise-free and exact-initial-condition) observation covariances"],
 }
 
 
@@ -36,9 +40,15 @@ def cases(tier):
             out.append(f"terminal/{ssm}/i{idx}/d2/k0")
         out.append(f"series/{ssm}/i0/d1/k1/avg")
         out.append(f"series/{ssm}/i1/d1/k1/sum")
+    # three output times: the running sum / running mean are updated twice
+    # the full 3-time obligation has degree 19 and is out of reach; instead the INDUCTIVE STEP of the backward recursion:
+    # the real scan body applied once to an arbitrary carry (arbitrary filtered marginal, arbitrary accumulated value,
+    # 2 or 3 data points seen so far)
+    for ssm in cm.SSMS:
+        out.append(f"scanstep/{ssm}/i0/d1/n2/sum")
+        out.append(f"scanstep/{ssm}/i1/d1/n3/avg")
     if tier == "thorough":
         for ssm in cm.SSMS:
-            out.append(f"series/{ssm}/i0/d1/k2/avg")
             out.append(f"series/{ssm}/i0/d2/k1/sum")
     return out
 
@@ -66,6 +76,9 @@ def build(case_id):
     kind, ssm, idx, dd, kk = parts[:5]
     idx = int(idx[1:]); d = int(dd[1:]); K = int(kk[1:])
     average = len(parts) > 5 and parts[5] == "avg"
+    concrete = len(parts) > 6 and parts[6] == "conc"
+    if kind == "scanstep":
+        return build_scanstep(ssm, idx, d, int(kk[1:]), average)
     n = 2
     N = n * d
     cfg = sc.Cfg(ssm=ssm, q=n - 1, d=d)
@@ -80,6 +93,21 @@ def build(case_id):
         tf = prior_c.init.tree_flatten
         mT, LT = cm.sym_rv(dom, ssm, n, d, "T")
         conds = [cm.sym_cond(dom, ssm, n, n, d, f"k{i}", scal="one") for i in range(K)]
+        if concrete:
+            # fixed small rationals instead of symbols (same shapes and sparsity patterns)
+            cnt = [0]
+
+            def conc(a):
+                if not (isinstance(a, np.ndarray) and a.dtype == object):
+                    return a
+                o = np.zeros(a.shape)
+                for idx in np.ndindex(*a.shape):
+                    if a[idx].t:
+                        cnt[0] += 1
+                        o[idx] = ((cnt[0] * 7) % 11 - 4) / 2.0 or 1.5
+                return o
+            mT, LT = conc(mT), conc(LT)
+            conds = [tuple(conc(x) for x in c_) for c_ in conds]
         y = sym_array(dom, "y", (K + 1, d))
         stdshape = () if ssm == "isotropic" else (d,)
         std = sym_array(dom, "sd", (K + 1,) + stdshape, unit=True)
@@ -197,6 +225,77 @@ def build(case_id):
             pd = pd * (det ** k)
         res["products of log arguments"] = (scalar(pa), scalar(pd))
         return res
+    return make, goals
+
+
+def build_scanstep(ssm, idx, d, num, average):
+    n = 2
+    cfg = sc.Cfg(ssm=ssm, q=n - 1, d=d)
+
+    def make(dom):
+        import jax
+        import jax.numpy as jnp
+        from probdiffeq import probdiffeq
+        from probdiffeq.backend import flow
+        from probdiffeq._probdiffeq.estimators_and_losses import MarkovSequence
+        Cond, Normal = cm.impl(ssm)
+        tf = sc.concrete_prior(cfg).init.tree_flatten
+        rvT = cm.sym_rv(dom, ssm, n, d, "T")
+        rvc = cm.sym_rv(dom, ssm, n, d, "c")            # the carry: arbitrary law of x_{k+1} given the later data
+        cond = cm.sym_cond(dom, ssm, n, n, d, "k0", scal="one")
+        y = sym_array(dom, "y", (2, d))
+        stdshape = () if ssm == "isotropic" else (d,)
+        std = sym_array(dom, "sd", (2,) + stdshape, unit=True)
+        lp = sym_array(dom, "lp", ())
+
+        def fn(rvT, rvc, cond, y, std, lp):
+            A, b, Q, tl, to = cond
+            cs = [Cond(A, Normal(b, Q, tf), to_latent=tl, to_observed=to)]
+            stacked = jax.tree_util.tree_map(lambda *xs: jnp.stack(xs), *cs)
+            post = MarkovSequence(Normal(*rvT, tf), stacked, reverse=True)
+            loss = probdiffeq.loss_lml_timeseries(average_pdfs=average, tcoeff_index=idx)
+            orig = flow.scan
+
+            def one_step(body, *, init, xs, reverse=False, **kw):
+                x0 = jax.tree_util.tree_map(lambda a: a[-1] if reverse else a[0], xs)
+                (c2, lp1, n1), _ = body((Normal(*rvc, tf), lp, num), x0)
+                return (c2, lp1, n1), ()
+            flow.scan = one_step          # the library looks the attribute up at call time; restored right after tracing
+            try:
+                return loss(y, posterior=post, std=std)
+            finally:
+                flow.scan = orig
+        return fn, (rvT, rvc, cond, y, std, lp)
+
+    def goals(args, out, orc):
+        rvT, rvc, cond, y, std, lp = args
+        mc, Pc = cm.dense_rv_raw(orc, ssm, *rvc, d)
+        G, o, Sg = cm.dense_cond_raw(orc, ssm, *cond, d)
+        mean = G.dot(mc) + o
+        cov = G.dot(Pc).dot(G.T) + Sg
+        i0 = idx * d
+        sd = orc.arr(std)
+        s0 = sd[0] if ssm == "isotropic" else sd[0][0]
+        s0 = s0[()] if isinstance(s0, np.ndarray) else s0
+        S = orc.name(cov[i0:i0 + 1, i0:i0 + 1] + np.array([[s0 * s0]], dtype=object if orc.sym else float), "S")
+        W = orc.inv(S, "Sinv")
+        r = orc.arr(y)[0] - mean[i0:i0 + 1]
+        q = r.dot(W).dot(r)
+        w_new = Fraction(1, num + 1) if average else Fraction(1)
+        w_old = Fraction(num, num + 1) if average else Fraction(1)
+        lpv = orc.arr(lp)[()]
+        if not orc.sym:
+            tot = float(w_old) * float(lpv) + float(w_new) * (-0.5 * q - 0.5 * LOG2PI - 0.5 * math.log(S[0, 0]))
+            return {"log-free part": (np.asarray(out), np.asarray(tot)), "products of log arguments": (np.asarray(out), np.asarray(tot))}
+        val = out[()] if isinstance(out, np.ndarray) else out
+        rest, groups = split_logs(val, orc.dom)
+        want_rest = lpv * Poly.const(w_old) + (q * Poly.const(Fraction(-1, 2)) + Poly.const(Fraction(LOG2PI) * Fraction(-1, 2))) * Poly.const(w_new)
+        assert len(groups) == 1 and sum(len(v) for v in groups.values()) == 1, f"expected one log atom: {groups}"
+        (c, (a_,)), = groups.items()
+        # impl: c log|a|, oracle: -(w_new/2) log S
+        assert c == -w_new, f"log atom enters with weight {c}, expected {-w_new}"
+        return {"log-free part": (scalar(rest), scalar(want_rest)),
+                "products of log arguments": (scalar(a_ * a_), scalar(S[0, 0]))}
     return make, goals
 
 
